@@ -3,4 +3,8 @@ namespace PV.Generated.C19
 def MIN_PACKET_SIZE : Nat := 4096
 def MAX_WINDOW_SIZE : Nat := 4294967295
 def MIN_WINDOW_SIZE : Nat := 32768
+/-- AST facts: Channel._set_remote_channel assigns out_max_packet_size from transport._sanitize_packet_size(…),
+    and Transport._sanitize_packet_size returns clamp_value(MIN_PACKET_SIZE, …, MAX_WINDOW_SIZE) -/
+def remote_max_packet_sanitised : Bool := true
+def sanitise_is_clamp_min_max : Bool := true
 end PV.Generated.C19
